@@ -449,8 +449,10 @@ func (t *KernMethod) getNextProposalID(ctx contract.KContext) (string, error) {
 
 func (t *KernMethod) unlockGovernTokensForProposal(ctx contract.KContext, proposalID string) error {
 	startKey := utils.MakeProposalLockPrefix(proposalID)
-	prefix := utils.MakeProposalLockPrefixSeparator(proposalID)
-	endKey := utils.PrefixRange([]byte(prefix))
+	// every key that starts with "lock_<id>_" (the end used to be derived from
+	// "lock_<id>__", which leaves out accounts whose name sorts after '_', e.g. any address
+	// that begins with a lower-case letter: their tokens stayed locked for ever)
+	endKey := utils.PrefixRange([]byte(startKey))
 	iter, err := ctx.Select(utils.GetProposalBucket(), []byte(startKey), endKey)
 	if err != nil {
 		return fmt.Errorf("unlockGovernTokensForProposal failed, generate proposal lock key iterator error")
@@ -542,16 +544,21 @@ func (t *KernMethod) unParse(proposal *utils.Proposal) ([]byte, error) {
 }
 
 func checkProposalArgs(proposal *utils.Proposal) error {
-	if proposal.Args["min_vote_percent"] == "" || proposal.Args["stop_vote_height"] == "" {
+	if proposal.Trigger == nil {
+		return fmt.Errorf("no trigger found")
+	}
+	minVotePercent, ok1 := proposal.Args["min_vote_percent"].(string)
+	stopVoteHeight, ok2 := proposal.Args["stop_vote_height"].(string)
+	if !ok1 || !ok2 || minVotePercent == "" || stopVoteHeight == "" {
 		return fmt.Errorf("no min_vote_percent or stop_vote_height found")
 	}
 
-	err := checkVoteThread(proposal.Args["min_vote_percent"].(string))
+	err := checkVoteThread(minVotePercent)
 	if err != nil {
 		return err
 	}
 
-	voteStopHeight, err := parseVoteStopHeight(proposal.Args["stop_vote_height"].(string))
+	voteStopHeight, err := parseVoteStopHeight(stopVoteHeight)
 	if err != nil {
 		return err
 	}
